@@ -105,7 +105,7 @@ def _worker_init(modname):
     signal.signal(signal.SIGINT, signal.SIG_IGN)
     try:        # a run-away allocation in the code under test becomes a MemoryError in that worker, not an OOM kill
         import resource
-        cap = int(float(os.environ.get("VERIF_WORKER_MEM_GB", "6")) * (1 << 30))
+        cap = int(float(os.environ.get("VERIF_WORKER_MEM_GB", "3")) * (1 << 30))
         resource.setrlimit(resource.RLIMIT_AS, (cap, cap))
     except Exception:
         pass
